@@ -199,7 +199,31 @@ for values in ([1, 2, 3], [1, 3, 2], [2, 1]):          # the probe fails at leve
     except Exception as e:
         VIOLATED, DETAIL = True, f'sweep {values} ({values.index(2)} run(s) had written their files before the failure): the caller gets {type(e).__name__}: {e} instead of the model error'
     if VIOLATED: break
-""", "expect": "run_mode lets the failing model's exception through also when earlier runs have already written output files"}
+# a fault at a chosen readout step of an exposure (with progress bar: several readout times) and of a dask observation
+from pyxel.exposure import Exposure
+def check(label, call):
+    global VIOLATED, DETAIL
+    try:
+        r = call()
+        if hasattr(r, 'compute'): r.compute()
+        VIOLATED, DETAIL = True, f'{label}: returned normally'
+    except VP.ProbeError as e:
+        notes = ' '.join(getattr(e, '__notes__', []))
+        if 'charge_generation' not in notes or 'bad' not in notes:
+            VIOLATED, DETAIL = True, f'{label}: note lacks group / model: {notes!r}'
+    except Exception as e:
+        VIOLATED, DETAIL = True, f'{label}: the caller gets {type(e).__name__}: {e} instead of the model error'
+for step in (0, 1, 2):
+    if VIOLATED: break
+    pipe = DetectionPipeline(photon_collection=[ModelFunction(func='verif_probes.writer', name='w', arguments={'photon': 3.0})],
+                             charge_generation=[ModelFunction(func='verif_probes.fail_at_step', name='bad', arguments={'step': step})])
+    for times in ([1.0, 2.0, 3.0], [1.0] if step == 0 else [1.0, 2.0, 3.0, 4.0]):
+        if VIOLATED: break
+        check(f'exposure with readout times {times}, fault at step {step}', lambda: pyxel.run_mode(mode=Exposure(readout=Readout(times=times)), detector=VP.detector(), pipeline=pipe))
+    if not VIOLATED:
+        obs = Observation(parameters=[ParameterValues(key='pipeline.photon_collection.w.arguments.photon', values=[1.0, 2.0])], readout=Readout(times=[1.0, 2.0, 3.0]), with_dask=True)
+        check(f'dask observation, fault at step {step} of every run', lambda: pyxel.run_mode(mode=obs, detector=VP.detector(), pipeline=pipe))
+""", "expect": "run_mode lets the failing model's exception through: when earlier runs have written output files, at any readout step, with or without a progress bar, sequentially or through dask"}
 STANDIN = {r"no_swallow": RUNMODE_REPLAY}
 
 
